@@ -44,16 +44,14 @@ Section Pos.
   Hypothesis Hline : 0 <= line < 65536.
   Hypothesis Hcol : 0 <= col < 65536.
 
-  Let X := Z.lor (Z.lor (Z.lor (Z.shiftl fi 48) (Z.shiftl fu 32)) (Z.shiftl line 16)) col.
-
-  Lemma X_bit : forall m, 0 <= m < 64 -> Z.testbit (new_pos fi fu line col) m =
+  Lemma X_bit : forall m, 0 <= m < 64 -> Z.testbit (pack_pos fi fu line col) m =
     (Z.testbit fi (m - 48) || Z.testbit fu (m - 32) || Z.testbit line (m - 16) || Z.testbit col m).
   Proof.
-    intros m Hm. unfold new_pos, two64. rewrite Z.mod_pow2_bits_low by lia.
+    intros m Hm. unfold pack_pos, two64. rewrite Z.mod_pow2_bits_low by lia.
     rewrite !Z.lor_spec, !Z.shiftl_spec by lia. reflexivity.
   Qed.
 
-  Lemma pos_file_roundtrip : pos_file (new_pos fi fu line col) = fi.
+  Lemma pos_file_roundtrip : pos_file (pack_pos fi fu line col) = fi.
   Proof.
     apply Z.bits_inj'. intros n Hn. unfold pos_file.
     rewrite Z.land_spec, Z.shiftr_spec, ones16 by lia.
@@ -64,7 +62,7 @@ Section Pos.
     - rewrite andb_false_r. symmetry. apply (bits_high fi 16); [change (2 ^ 16) with 65536|]; lia.
   Qed.
 
-  Lemma pos_func_roundtrip : pos_func (new_pos fi fu line col) = fu.
+  Lemma pos_func_roundtrip : pos_func (pack_pos fi fu line col) = fu.
   Proof.
     apply Z.bits_inj'. intros n Hn. unfold pos_func.
     rewrite Z.land_spec, Z.shiftr_spec, ones16 by lia.
@@ -77,35 +75,55 @@ Section Pos.
   Qed.
 End Pos.
 
-Lemma hash_key_tail_ok : forall keys idx, hash_key keys idx -> key_tail_ok keys idx = true.
-Proof. intros keys idx [s H]. unfold key_tail_ok. rewrite H. reflexivity. Qed.
+Lemma clamp16_range : forall n, 0 <= clamp16 n < 65536.
+Proof. intros n. unfold clamp16. destruct (n <? 0) eqn:A; [lia|]. destruct (65535 <? n) eqn:B; lia. Qed.
+Lemma clamp16_le : forall n, 0 <= n -> clamp16 n <= n.
+Proof. intros n H. unfold clamp16. destruct (n <? 0) eqn:A; [lia|]. destruct (65535 <? n) eqn:B; lia. Qed.
 
-Lemma stamped_ok : forall keys p, stamped keys p -> pos_string_ok keys p = true.
+(* newPos / pos.info for ARBITRARY indices, lines and columns: the fields never disturb each other *)
+Lemma new_pos_file : forall fi fu line col, pos_file (new_pos fi fu line col) = clamp16 fi.
+Proof. intros. unfold new_pos. apply pos_file_roundtrip; apply clamp16_range. Qed.
+Lemma new_pos_func : forall fi fu line col, pos_func (new_pos fi fu line col) = clamp16 fu.
+Proof. intros. unfold new_pos. apply pos_func_roundtrip; apply clamp16_range. Qed.
+
+Lemma key_in_range_ok : forall keys idx, Forall (fun k => k <> "") keys -> 0 <= idx < Z.of_nat (List.length keys) ->
+  key_tail_ok keys idx = true.
 Proof.
-  intros keys p [[-> (k & r & -> & Hk)] | (fi & fu & line & col & -> & Hfi & Hfu & Hl & Hc & Kfi & Kfu)].
-  - unfold pos_string_ok, key_tail_ok, pos_file, pos_func. cbn.
+  intros keys idx Hne Hi. unfold key_tail_ok.
+  destruct (nth_error keys (Z.to_nat idx)) as [k|] eqn:E.
+  - rewrite Forall_forall in Hne. specialize (Hne k (nth_error_In _ _ E)).
     destruct (String.eqb_spec k ""); [contradiction|reflexivity].
-  - unfold pos_string_ok. rewrite pos_file_roundtrip, pos_func_roundtrip by assumption.
-    rewrite !hash_key_tail_ok by assumption. reflexivity.
+  - apply nth_error_None in E. lia.
+Qed.
+
+Lemma stamped_ok : forall keys p, keys_ok keys -> stamped keys p -> pos_string_ok keys p = true.
+Proof.
+  intros keys p [Hn Hne] [->|(fi & fu & line & col & -> & Hfi & Hfu)]; unfold pos_string_ok.
+  - assert (H0 : 0 <= 0 < Z.of_nat (List.length keys)) by (destruct keys; [congruence|cbn [List.length]; lia]).
+    change (pos_file 0) with 0. change (pos_func 0) with 0. rewrite !key_in_range_ok by assumption. reflexivity.
+  - rewrite new_pos_file, new_pos_func.
+    pose proof (clamp16_range fi). pose proof (clamp16_range fu).
+    pose proof (clamp16_le fi ltac:(lia)). pose proof (clamp16_le fu ltac:(lia)).
+    rewrite !key_in_range_ok by (assumption || lia). reflexivity.
 Qed.
 
 (* ---- btErr is total: any frame.N, any code length ---------------------------------------------- *)
 
 Lemma bt_err_total : forall s, vmstate_ok s -> bt_err_ok (vkeys s) (vcodes s) (vN s) (vbt s) = true.
 Proof.
-  intros [keys codes n bt] [Hc Hb]; cbn in *. unfold bt_err_ok. apply andb_true_iff; split.
+  intros [keys codes n bt] (Hk & Hc & Hb); cbn in *. unfold bt_err_ok. apply andb_true_iff; split.
   - set (len := Z.of_nat (List.length codes)).
     destruct (len <=? n) eqn:E1.
     + destruct (0 <=? len - 1) eqn:E2; [|reflexivity].
       destruct (nth_error codes (Z.to_nat (len - 1))) as [p|] eqn:E3.
-      * apply stamped_ok. rewrite Forall_forall in Hc. apply Hc. eapply nth_error_In; eauto.
+      * apply stamped_ok; [assumption|]. rewrite Forall_forall in Hc. apply Hc. eapply nth_error_In; eauto.
       * apply nth_error_None in E3. subst len. lia.
     + destruct (0 <=? n) eqn:E2; [|reflexivity].
       destruct (nth_error codes (Z.to_nat n)) as [p|] eqn:E3.
-      * apply stamped_ok. rewrite Forall_forall in Hc. apply Hc. eapply nth_error_In; eauto.
+      * apply stamped_ok; [assumption|]. rewrite Forall_forall in Hc. apply Hc. eapply nth_error_In; eauto.
       * apply nth_error_None in E3. subst len. lia.
-  - apply forallb_forall. intros p Hp. rewrite Forall_forall in Hb. destruct (Hb p Hp) as [->|H]; [reflexivity|].
-    destruct (p =? 0); [reflexivity|]. apply stamped_ok; assumption.
+  - apply forallb_forall. intros p Hp. rewrite Forall_forall in Hb.
+    destruct (p =? 0); [reflexivity|]. apply stamped_ok; auto.
 Qed.
 
 Lemma run_no_escape : forall b, run_beh_ok b -> forall w, run_model b <> SEscape w.
@@ -153,6 +171,65 @@ Section LoadNonEmpty.
   Qed.
 End LoadNonEmpty.
 
+(* ---- the discovery worklist terminates on every finite import graph -------------------------------------
+   U: a list that contains top and is closed under imports (the packages that can ever be on the worklist).
+   Potential = |todo| + the import entries of the packages of U not yet visited; every iteration lowers it. *)
+Section LoadTerm.
+  Variable imports : string -> option (list string).
+  Variable U : list string.
+  Hypothesis U_closed : forall q l x, In q U -> imports q = Some l -> In x l -> In x U.
+
+  Definition w (q : string) : nat := match imports q with Some l => List.length l | None => 0 end.
+  Fixpoint uw (V : list string) (visited : list string) : nat :=
+    match V with [] => 0 | q :: r => ((if mem q visited then 0 else w q) + uw r visited)%nat end.
+
+  Lemma uw_nil : forall V, uw V [] = weight imports V.
+  Proof. induction V as [|q r IH]; cbn; [reflexivity|]. rewrite IH. unfold w. destruct (imports q); reflexivity. Qed.
+
+  Lemma uw_mono : forall V v x, (uw V (x :: v) <= uw V v)%nat.
+  Proof. induction V as [|q r IH]; intros v x; cbn; [lia|]. specialize (IH v x). destruct (String.eqb q x); cbn; destruct (mem q v); lia. Qed.
+
+  Lemma uw_visit : forall V v x, In x V -> mem x v = false -> (uw V (x :: v) + w x <= uw V v)%nat.
+  Proof.
+    induction V as [|q r IH]; intros v x Hin Hm; [destruct Hin|]. cbn [uw mem].
+    destruct Hin as [->|Hin].
+    - rewrite String.eqb_refl. cbn [orb]. rewrite Hm. pose proof (uw_mono r v x). lia.
+    - specialize (IH v x Hin Hm). destruct (String.eqb q x) eqn:E; cbn [orb].
+      + apply String.eqb_eq in E. subst q. rewrite Hm. pose proof (uw_mono r v x). lia.
+      + destruct (mem q v); lia.
+  Qed.
+
+  Lemma discover_enough : forall fuel todo d, (forall x, In x todo -> In x U) ->
+    (List.length todo + uw U (map fst (packages d)) < fuel)%nat -> discover imports fuel todo d <> None.
+  Proof.
+    induction fuel as [|fuel IH]; intros todo d Hsub Hlt; [lia|]. cbn [discover].
+    destruct todo as [|pkg rest]; [discriminate|]. cbn [List.length] in Hlt.
+    assert (Hrest : forall x, In x rest -> In x U) by (intros; apply Hsub; right; assumption).
+    destruct (mem pkg (map fst (packages d))) eqn:Em.
+    - apply IH; [assumption|lia].
+    - destruct (imports pkg) as [imps|] eqn:Ei.
+      + apply IH.
+        * intros x Hx. apply in_app_or in Hx as [Hx|Hx]; [|auto].
+          apply in_rev in Hx. eapply U_closed; eauto. apply Hsub. left; reflexivity.
+        * cbn [packages map fst]. rewrite app_length, rev_length.
+          pose proof (uw_visit U (map fst (packages d)) pkg (Hsub pkg (or_introl eq_refl)) Em) as Hv.
+          unfold w in Hv. rewrite Ei in Hv. lia.
+      + apply IH; [assumption|]. cbn [packages map fst].
+        pose proof (uw_mono U (map fst (packages d)) pkg). lia.
+  Qed.
+
+  Theorem load_no_fuel : forall top fuel, In top U -> (S (S (weight imports U)) <= fuel)%nat ->
+    load imports fuel top <> LoadFuel.
+  Proof.
+    intros top fuel Hin Hf. unfold load.
+    destruct (discover imports fuel [top] (mkDisc [] [])) as [d|] eqn:Ed.
+    - destruct (order_loop _ _ _); discriminate.
+    - exfalso. revert Ed. apply discover_enough.
+      + intros x [<-|[]]. assumption.
+      + cbn [packages map List.length]. rewrite uw_nil. lia.
+  Qed.
+End LoadTerm.
+
 Lemma split_last_some : forall A (l : list A), l <> [] -> exists a b, split_last l = Some (a, b) /\ In b l.
 Proof.
   intros A l H. unfold split_last. destruct (rev l) as [|x r] eqn:E.
@@ -165,98 +242,59 @@ Qed.
 Lemma length_append : forall a b, String.length (a ++ b) = (String.length a + String.length b)%nat.
 Proof. induction a as [|c a IH]; intros b; cbn; [reflexivity|]. rewrite IH. reflexivity. Qed.
 
-(* induction principle for the nested tree *)
-Section TreeInd.
-  Variable P : tree -> Prop.
-  Hypothesis Hnil : P TNil.
-  Hypothesis Hnode : forall sy tx kids, Forall P kids -> P (TNode sy tx kids).
-  Fixpoint tree_ind' (t : tree) : P t :=
-    match t with
-    | TNil => Hnil
-    | TNode sy tx kids =>
-        Hnode sy tx kids ((fix go (l : list tree) : Forall P l :=
-                             match l with [] => Forall_nil P | k :: r => Forall_cons k (tree_ind' k) (go r) end) kids)
-    end.
-End TreeInd.
-
-Definition go_str := fix go (l : list tree) : option (list string) :=
-  match l with
-  | [] => Some []
-  | k :: r => match tstr k, go r with Some s, Some ss => Some (s :: ss) | _, _ => None end
-  end.
-Definition go_nonil := fix go (l : list tree) : bool := match l with [] => true | k :: r => no_nil k && go r end.
-
-Lemma tstr_node : forall sy tx k ks, tstr (TNode sy tx (k :: ks)) =
-  match go_str (k :: ks) with Some ss => Some ("(" ++ tx ++ " " ++ concat_sp ss ++ ")") | None => None end.
-Proof. reflexivity. Qed.
-
-Lemma no_nil_str : forall t, no_nil t = true -> exists s, tstr t = Some s.
+(* a node with children renders as "(" text " " ... ")": at least 3 + |text| bytes, whatever the children are
+   (nil children print "<nil>") *)
+Lemma dump_node_ok : forall sy tx kids, kids <> [] -> (1 <= String.length tx)%nat -> dump_one_ok (TNode sy tx kids) = true.
 Proof.
-  induction t as [|sy tx kids IH] using tree_ind'; intros H; [discriminate|].
-  destruct kids as [|k ks]; [exists tx; reflexivity|].
-  rewrite tstr_node. change (go_nonil (k :: ks) = true) in H.
-  assert (Hg : exists ss, go_str (k :: ks) = Some ss).
-  { clear sy tx. induction IH as [|x l Hx Hl IHl]; [exists []; reflexivity|].
-    cbn in H. apply andb_true_iff in H as [H1 H2]. destruct (Hx H1) as [s Hs]. destruct (IHl H2) as [ss Hss].
-    exists (s :: ss). cbn. rewrite Hs. fold go_str. rewrite Hss. reflexivity. }
-  destruct Hg as [ss ->]. eexists; reflexivity.
-Qed.
-
-Lemma dump_node_ok : forall sy tx kids, kids <> [] -> (1 <= String.length tx)%nat -> no_nil (TNode sy tx kids) = true ->
-  dump_one_ok (TNode sy tx kids) = true.
-Proof.
-  intros sy tx kids Hk Ht Hn. unfold dump_one_ok.
-  destruct (no_nil_str _ Hn) as [s Hs]. rewrite Hs.
-  destruct kids as [|k ks]; [congruence|]. rewrite tstr_node in Hs.
-  destruct (go_str (k :: ks)) as [ss|]; [|discriminate]. inversion Hs; subst.
-  apply Nat.leb_le. cbn [append String.length]. repeat (rewrite length_append; cbn [String.length]). lia.
+  intros sy tx kids Hk Ht. unfold dump_one_ok. destruct kids as [|k ks]; [congruence|].
+  apply Nat.leb_le. cbn [tstr append String.length]. repeat (rewrite length_append; cbn [String.length]). lia.
 Qed.
 
 Lemma synthetic_ok : forall pkg, dump_one_ok (synthetic pkg) = true.
-Proof.
-  intros pkg. unfold synthetic. apply dump_node_ok; [discriminate|cbn; lia|reflexivity].
-Qed.
+Proof. intros pkg. unfold synthetic. apply dump_node_ok; [discriminate|cbn; lia]. Qed.
 
 Lemma fix_empty_ok : forall pkg t, raw_tree_ok t -> dump_one_ok (fix_empty pkg t) = true.
 Proof.
-  intros pkg t [H|[Ht Hn]]; unfold fix_empty.
+  intros pkg t [H|Ht]; unfold fix_empty.
   - rewrite H. apply synthetic_ok.
-  - destruct t as [|sy tx kids]; [discriminate|]. cbn in Ht; subst tx. cbn [kids_of].
-    destruct kids as [|k ks]; [apply synthetic_ok|]. apply dump_node_ok; [discriminate|cbn; lia|assumption].
+  - destruct t as [|sy tx kids]; [apply synthetic_ok|]. cbn in Ht; subst tx. cbn [kids_of].
+    destruct kids as [|k ks]; [apply synthetic_ok|]. apply dump_node_ok; [discriminate|cbn; lia].
 Qed.
 
-(* ---- loadImports: no escape under the stated preconditions ---------------------------------------- *)
+(* ---- loadImports never lets a panic escape (its deferred recover) ------------------------------------ *)
 
 Section Contain.
   Variable unq : string -> bool.
 
-  (* the preconditions of the unprotected loader on the top tree *)
-  Definition load_pre (sys_is_nil : bool) (top : tree) (fb : files_beh) : Prop :=
-    exists paths, top_imports unq (kids_of top) = Some paths /\
-      (paths <> [] -> sys_is_nil = false /\ files_beh_ok fb).
-
-  Lemma load_imports_contained : forall sys_is_nil topPkg top fb, load_pre sys_is_nil top fb -> raw_tree_ok top ->
+  Lemma load_imports_contained : forall sys_is_nil topPkg top fb,
     (forall w, load_imports_model unq sys_is_nil topPkg top fb <> SEscape w) /\
-    (forall pkgs, load_imports_model unq sys_is_nil topPkg top fb = SOk pkgs ->
+    (raw_tree_ok top -> forall pkgs, load_imports_model unq sys_is_nil topPkg top fb = SOk pkgs ->
        pkgs <> [] /\ forallb dump_one_ok pkgs = true).
   Proof.
-    intros nilfs topPkg top fb (paths & Hp & Hpre) Htop. unfold load_imports_model. rewrite Hp.
-    destruct paths as [|p ps].
-    - split.
-      + intros w. destruct (load _ 2 topPkg); discriminate.
-      + intros pkgs H. destruct (load _ 2 topPkg) as [order| |] eqn:El; try discriminate. inversion H; subst.
-        split.
-        * apply load_nonempty in El. destruct order; [congruence|discriminate].
-        * apply forallb_forall. intros t Ht. apply in_map_iff in Ht as (q & <- & _). apply fix_empty_ok; assumption.
-    - destruct (Hpre ltac:(discriminate)) as [-> Hfb]. destruct fb as [imps raw bud| |]; cbn in Hfb; [|split; intros; discriminate|contradiction].
-      split.
-      + intros w. destruct (load _ bud topPkg); discriminate.
-      + intros pkgs H. destruct (load _ bud topPkg) as [order| |] eqn:El; try discriminate. inversion H; subst.
-        split.
-        * apply load_nonempty in El. destruct order; [congruence|discriminate].
-        * apply forallb_forall. intros t Ht. apply in_map_iff in Ht as (q & <- & _). apply fix_empty_ok.
-          destruct (String.eqb q topPkg); [assumption|apply Hfb].
+    intros nilfs topPkg top fb. unfold load_imports_model.
+    destruct (top_imports unq (kids_of top)) as [paths|]; [|split; intros; discriminate].
+    assert (Hfin : forall imports raw budget, (forall p, raw_tree_ok (raw p)) ->
+      (forall w, match load imports budget topPkg with
+                 | LoadOk order => SOk (map (fun p => fix_empty p (if String.eqb p topPkg then top else raw p)) order)
+                 | LoadCycle => SErr | LoadFuel => SHang end <> SEscape w) /\
+      (raw_tree_ok top -> forall pkgs, match load imports budget topPkg with
+                 | LoadOk order => SOk (map (fun p => fix_empty p (if String.eqb p topPkg then top else raw p)) order)
+                 | LoadCycle => SErr | LoadFuel => SHang end = SOk pkgs -> pkgs <> [] /\ forallb dump_one_ok pkgs = true)).
+    { intros imports raw budget Hraw. destruct (load imports budget topPkg) as [order| |] eqn:El; split; intros; try discriminate.
+      match goal with H : SOk _ = SOk _ |- _ => inversion H; subst end. split.
+      - apply load_nonempty in El. destruct order; [congruence|discriminate].
+      - apply forallb_forall. intros t Ht. apply in_map_iff in Ht as (q & <- & _). apply fix_empty_ok.
+        destruct (String.eqb q topPkg); [assumption|apply Hraw]. }
+    destruct (nilfs || match paths with [] => true | _ :: _ => false end).
+    - apply Hfin. intros q. left. reflexivity.
+    - destruct fb as [imports nodes budget| |]; try (split; intros; discriminate).
+      apply Hfin. intros q. right. reflexivity.
   Qed.
+
+  (* the loader, on its own: whatever the source imports, whatever the file system holds (or nil) *)
+  Theorem load_imports_never_escapes : forall sys_is_nil topPkg top fb w,
+    load_imports_model unq sys_is_nil topPkg top fb <> SEscape w.
+  Proof. intros. apply load_imports_contained. Qed.
 
   (* ---- Eval ---------------------------------------------------------------------------------------- *)
 
@@ -266,42 +304,38 @@ Section Contain.
     code_dump_ok dump (fst kc) (snd kc) = true.
   Proof.
     intros dump [keys code|c] kc H Hc; cbn in Hc; [|discriminate]. inversion Hc; subst. cbn [fst snd].
-    unfold code_dump_ok. destruct dump; [|reflexivity]. cbn in H. specialize (H eq_refl).
-    apply forallb_forall. intros i Hi. rewrite Forall_forall in H. destruct (H i Hi) as [Hs Hk].
-    unfold dins_ok. rewrite (stamped_ok _ _ Hs), Hk. reflexivity.
+    unfold code_dump_ok. destruct dump; [|reflexivity]. cbn in H. destruct (H eq_refl) as [Hk Hcode].
+    apply forallb_forall. intros i Hi. rewrite Forall_forall in Hcode. destruct (Hcode i Hi) as [Hs Hkk].
+    unfold dins_ok. rewrite (stamped_ok _ _ Hk Hs), Hkk. reflexivity.
   Qed.
 
-  (* what is assumed about the stage bodies in an Eval *)
-  Record eval_hyps (sys_is_nil : bool) (o : options) (a : eval_adv) : Prop := {
+  (* what is assumed about the stage bodies in an Eval: nothing about the loader, the parser or the trees *)
+  Record eval_hyps (o : options) (a : eval_adv) : Prop := {
     eh_scan : ea_scan a <> ScanPanic;
-    eh_parse : parse_beh_ok (ea_parse a);
-    eh_load : forall t, ea_parse a = PRet t -> load_pre sys_is_nil t (ea_files a);
     eh_rimp : run_beh_ok (ea_rimp a);
     eh_comp : comp_beh_ok (code_dump o) (ea_comp a);
     eh_run : run_beh_ok (ea_run a) }.
 
-  Lemma eval_contained : forall n o a, eval_hyps n o a -> ~ is_escape (eval_model unq n o a).
+  Lemma eval_contained : forall n o a, eval_hyps o a -> ~ is_escape (eval_model unq n o a).
   Proof.
-    intros n o a [Hs Hp Hl Hri Hc Hr] [w Hw]. unfold eval_model in Hw.
+    intros n o a [Hs Hri Hc Hr] [w Hw]. unfold eval_model in Hw.
     destruct (tokenize_model (ea_scan a)) as [tokens| |w0|] eqn:Et; cbn [bind] in Hw; try discriminate.
     2:{ destruct (ea_scan a); cbn in Et; try discriminate. congruence. }
     destruct (parse_model tokens (ea_parse a)) as [tree| |w0|] eqn:Ep; cbn [bind] in Hw; try discriminate.
     2:{ exact (parse_after_tokenize _ _ _ Et _ Ep). }
-    assert (Ept : ea_parse a = PRet tree).
-    { destruct tokens; cbn in Ep; [discriminate|]. destruct (ea_parse a); [inversion Ep; reflexivity|discriminate]. }
     assert (Htree : raw_tree_ok tree).
-    { right. rewrite Ept in Hp. exact Hp. }
-    destruct (load_imports_contained n "" tree (ea_files a) (Hl _ Ept) Htree) as [Hne Hok].
+    { destruct tokens; cbn in Ep; [discriminate|]. destruct (ea_parse a); [|discriminate]. inversion Ep. right. reflexivity. }
+    destruct (load_imports_contained n "" tree (ea_files a)) as [Hne Hok].
     destruct (load_imports_model unq n "" tree (ea_files a)) as [pkgs| |w0|] eqn:El; cbn [bind] in Hw; try discriminate.
     2:{ exact (Hne _ eq_refl). }
-    destruct (Hok _ eq_refl) as [Hnn Hd].
+    destruct (Hok Htree _ eq_refl) as [Hnn Hd].
     destruct (split_last_some _ _ Hnn) as (imps & top & Hsl & Hin). rewrite Hsl in Hw.
     destruct (compile_model (ea_cimp a)) as [kc0| |w0|] eqn:Eci; cbn [bind] in Hw; try discriminate.
     2:{ destruct (ea_cimp a); discriminate. }
     destruct (run_model (ea_rimp a)) as [u| |w0|] eqn:Eri; cbn [bind] in Hw; try discriminate.
     2:{ exact (run_no_escape _ Hri _ Eri). }
     assert (Htd : tree_dump_ok (tree_dump o) [top] = true).
-    { unfold tree_dump_ok. destruct (tree_dump o); [|reflexivity]. cbn. rewrite andb_true_r.
+    { unfold tree_dump_ok. destruct (tree_dump o); [|reflexivity]. cbn [forallb]. rewrite andb_true_r.
       rewrite forallb_forall in Hd. apply Hd; assumption. }
     rewrite Htd in Hw. cbn [negb] in Hw.
     destruct (compile_model (ea_comp a)) as [kc| |w0|] eqn:Ec; cbn [bind] in Hw; try discriminate.
@@ -313,21 +347,21 @@ Section Contain.
 
   (* ---- Load ------------------------------------------------------------------------------------------ *)
 
-  Record load_hyps (sys_is_nil : bool) (o : options) (a : load_adv) : Prop := {
-    lh_top : la_top a <> TopPanic;
-    lh_tree : forall t, la_top a = TopRet t -> raw_tree_ok t /\ load_pre sys_is_nil t (la_files a);
+  Record load_hyps (o : options) (a : load_adv) : Prop := {
+    lh_top : la_top a <> TopPanic;          (* rawLoadPackage / rawLoadFile on the argument: outside loadImports' recover *)
     lh_comp : comp_beh_ok (code_dump o) (la_comp a);
     lh_run : run_beh_ok (la_run a) }.
 
-  Lemma load_contained : forall n p o a, load_hyps n o a -> ~ is_escape (load_model unq n p o a).
+  Lemma load_contained : forall n p o a, load_hyps o a -> ~ is_escape (load_model unq n p o a).
   Proof.
-    intros n p o a [Ht Htr Hc Hr] [w Hw]. unfold load_model in Hw.
-    destruct (la_top a) as [top| |] eqn:Etop; try discriminate; [|congruence].
-    destruct (Htr _ eq_refl) as [Hraw Hpre].
-    destruct (load_imports_contained n p top (la_files a) Hpre Hraw) as [Hne Hok].
+    intros n p o a [Ht Hc Hr] [w Hw]. unfold load_model in Hw.
+    destruct (la_top a) as [nodes| |] eqn:Etop; try discriminate; [|congruence].
+    cbv zeta in Hw. set (top := TNode "_" "_" nodes) in *.
+    assert (Hraw : raw_tree_ok top) by (right; reflexivity).
+    destruct (load_imports_contained n p top (la_files a)) as [Hne Hok].
     destruct (load_imports_model unq n p top (la_files a)) as [pkgs| |w0|] eqn:El; cbn [bind] in Hw; try discriminate.
     2:{ exact (Hne _ eq_refl). }
-    destruct (Hok _ eq_refl) as [_ Hd].
+    destruct (Hok Hraw _ eq_refl) as [_ Hd].
     assert (Htd : tree_dump_ok (tree_dump o) pkgs = true) by (unfold tree_dump_ok; destruct (tree_dump o); auto).
     rewrite Htd in Hw. cbn [negb] in Hw.
     destruct (compile_model (la_comp a)) as [kc| |w0|] eqn:Ec; cbn [bind] in Hw; try discriminate.
@@ -344,10 +378,9 @@ Section Contain.
   Proof.
     intros x [len keys|s|] H [w Hw]; cbn in Hw.
     - destruct ((0 <=? x) && (x <=? len)); [discriminate|].
-      destruct H as (k & r & -> & Hk).
-      assert (E : bt_err_ok (k :: r) [0] 1 [] = true).
-      { apply (bt_err_total (mkVmstate (k :: r) [0] 1 [])). split; [|constructor].
-        constructor; [|constructor]. left. split; [reflexivity|]. exists k, r. auto. }
+      assert (E : bt_err_ok keys [0] 1 [] = true).
+      { apply (bt_err_total (mkVmstate keys [0] 1 [])). split; [exact H|]. split; [|constructor].
+        constructor; [left; reflexivity|constructor]. }
       rewrite E in Hw. discriminate.
     - cbn in H. rewrite bt_err_total in Hw by assumption. discriminate.
     - discriminate.
@@ -357,8 +390,8 @@ Section Contain.
 
   Definition entry_hyps (e : entry) : Prop :=
     match e with
-    | EEval n o a => eval_hyps n o a
-    | ELoad n _ o a => load_hyps n o a
+    | EEval _ o a => eval_hyps o a
+    | ELoad _ _ o a => load_hyps o a
     | ECall _ b | EFunc _ b => func_beh_ok b
     end.
 
@@ -405,17 +438,17 @@ Section Contain.
     apply bind_err in H as [[_ ->]|(u' & _ & H)]; [eexists; cbn; eauto 8|discriminate].
   Qed.
 
-  Theorem load_prefix : forall n pk o a p, load_model unq n pk o a = Err p ->
-    (exists st, In (p, st) load_prefixes) \/ (p = "unexpected returns: " /\ la_rets a <> O).
+  Theorem load_prefix : forall n pk o a p, load_model unq n pk o a = Err p -> exists st, In (p, st) load_prefixes.
   Proof.
     intros n pk o a p H. unfold load_model in H.
-    destruct (la_top a) as [top| |]; [|inversion H; left; eexists; cbn; eauto|discriminate].
-    apply bind_err in H as [[_ ->]|(pkgs & _ & H)]; [left; eexists; cbn; eauto|].
+    destruct (la_top a) as [nodes| |]; [|inversion H; eexists; cbn; eauto|discriminate].
+    cbv zeta in H.
+    apply bind_err in H as [[_ ->]|(pkgs & _ & H)]; [eexists; cbn; eauto|].
     destruct (negb (tree_dump_ok (tree_dump o) pkgs)); [discriminate|].
-    apply bind_err in H as [[_ ->]|(kc & _ & H)]; [left; eexists; cbn; eauto|].
+    apply bind_err in H as [[_ ->]|(kc & _ & H)]; [eexists; cbn; eauto|].
     destruct (negb (code_dump_ok (code_dump o) (fst kc) (snd kc))); [discriminate|].
-    apply bind_err in H as [[_ ->]|(u & _ & H)]; [left; eexists; cbn; eauto 6|].
-    destruct (la_rets a); [discriminate|]. inversion H. right. split; [reflexivity|discriminate].
+    apply bind_err in H as [[_ ->]|(u & _ & H)]; [eexists; cbn; eauto 6|].
+    destruct (la_rets a); [discriminate|]. inversion H. eexists; cbn; eauto 6.
   Qed.
 
   (* ---- only the run stage (the script) and an unbounded import graph can hang ---------------------------- *)
@@ -426,16 +459,26 @@ Section Contain.
 
   (* the loader hangs only when the discovery worklist of Model/Loader.v runs out of budget on a graph
      with imports (C15: it never does when the reachable part of the graph is finite) *)
+  (* the loader hangs only when the discovery worklist of Model/Loader.v runs out of budget while reading
+     imported packages from a real file system (load_no_fuel: it never does on a finite import graph) *)
   Lemma load_imports_hang : forall nilfs topPkg top fb, load_imports_model unq nilfs topPkg top fb = SHang ->
-    exists p ps imports raw budget, top_imports unq (kids_of top) = Some (p :: ps) /\ fb = FRet imports raw budget /\
+    exists p ps imports nodes budget, nilfs = false /\ top_imports unq (kids_of top) = Some (p :: ps) /\
+      fb = FRet imports nodes budget /\
       load (fun q => if String.eqb q topPkg then Some (p :: ps) else imports q) budget topPkg = LoadFuel.
   Proof.
     intros nilfs topPkg top fb H. unfold load_imports_model in H.
-    destruct (top_imports unq (kids_of top)) as [[|p ps]|]; try discriminate.
-    - exfalso. unfold load in H. cbn in H. rewrite String.eqb_refl in H. cbn in H.
-      repeat (rewrite String.eqb_refl in H; cbn in H). discriminate.
-    - destruct nilfs; [discriminate|]. destruct fb as [imports raw budget| |]; try discriminate.
-      exists p, ps, imports, raw, budget. repeat split; auto.
+    destruct (top_imports unq (kids_of top)) as [paths|]; [|discriminate].
+    destruct (nilfs || match paths with [] => true | _ :: _ => false end) eqn:Eb.
+    - exfalso.
+      set (imps := fun q => if String.eqb q topPkg then Some paths else None) in *.
+      assert (Hnf : load imps (S (S (weight imps (topPkg :: paths)))) topPkg <> LoadFuel).
+      { apply (load_no_fuel imps (topPkg :: paths)); [|left; reflexivity|lia].
+        intros q l x Hq Hl Hx. unfold imps in Hl. destruct (String.eqb q topPkg); [|discriminate].
+        inversion Hl; subst. right. assumption. }
+      destruct (load imps _ topPkg); try discriminate. congruence.
+    - apply orb_false_iff in Eb as [-> Ep]. destruct paths as [|p ps]; [discriminate|].
+      destruct fb as [imports nodes budget| |]; try discriminate.
+      exists p, ps, imports, nodes, budget. repeat split; auto.
       destruct (load _ budget topPkg); try discriminate. reflexivity.
   Qed.
 
@@ -483,6 +526,29 @@ Proof.
 Qed.
 
 Theorem pos_roundtrip : forall fi fu line col : Z,
-  0 <= fi < 65536 -> 0 <= fu < 65536 -> 0 <= line < 65536 -> 0 <= col < 65536 ->
-  pos_file (new_pos fi fu line col) = fi /\ pos_func (new_pos fi fu line col) = fu.
-Proof. intros. split; [apply pos_file_roundtrip|apply pos_func_roundtrip]; assumption. Qed.
+  pos_file (new_pos fi fu line col) = clamp16 fi /\ pos_func (new_pos fi fu line col) = clamp16 fu /\
+  (0 <= fi < 65536 -> clamp16 fi = fi) /\ (0 <= fu < 65536 -> clamp16 fu = fu).
+Proof.
+  intros. split; [apply new_pos_file|]. split; [apply new_pos_func|].
+  unfold clamp16. split; intros H; (destruct (_ <? 0) eqn:A; [lia|]; destruct (65535 <? _) eqn:B; lia).
+Qed.
+
+(* the hypotheses of the containment theorem are satisfiable (non-vacuity) *)
+Lemma eval_hyps_witness :
+  let keys := ["nil"; "true"; "false"; "#eval"; "#"] in
+  eval_hyps (mkOpt true true false)
+    (mkEvalAdv (ScanOk []) (PRet []) FErr (CRet keys []) (RPanic (mkVmstate keys [new_pos 3 4 70000 1] 5 [0; new_pos 3 4 2 2]))
+               (CRet keys [mkDins (new_pos 3 4 1 1) [0]]) RRet).
+Proof.
+  assert (Hk : keys_ok ["nil"; "true"; "false"; "#eval"; "#"]).
+  { split; [discriminate|]. repeat constructor; discriminate. }
+  assert (Hs : forall l c, stamped ["nil"; "true"; "false"; "#eval"; "#"] (new_pos 3 4 l c)).
+  { intros l c. right. exists 3, 4, l, c. cbn. repeat split; lia. }
+  Opaque new_pos. split; cbn. Transparent new_pos.
+  - discriminate.
+  - split; [exact Hk|]. split.
+    + constructor; [apply Hs|constructor].
+    + constructor; [left; reflexivity|]. constructor; [apply Hs|constructor].
+  - intros _. split; [exact Hk|]. constructor; [|constructor]. split; [apply Hs|reflexivity].
+  - exact I.
+Qed.
